@@ -23,7 +23,7 @@ const (
 )
 
 const (
-	verifRecs  = 2
+	verifRecs  = 5
 	verifSlots = 3
 )
 
